@@ -14,7 +14,7 @@ HOME = os.path.dirname(os.path.dirname(os.path.abspath(__file__)))
 
 def load():
     out = []
-    files = [os.path.join(HOME, 'known_findings.json')] + sorted(glob.glob(os.path.join(HOME, 'known.d', '*.json')))
+    files = [os.path.join(HOME, 'known_findings.json')]
     for f in files:
         if not os.path.exists(f):
             continue
